@@ -1,6 +1,7 @@
 """C04 -- collections compute element by element what single objects compute."""
 from __future__ import annotations
 
+import functools
 import types
 
 import numpy as np
@@ -575,7 +576,7 @@ def install(ctx):
                 continue
             if name.startswith("_") and name not in ("__add__", "__sub__", "__mul__", "__rmul__", "__eq__", "__neg__", "__truediv__", "__pow__"):
                 continue
-            if isinstance(raw, (property, types.FunctionType)):
+            if isinstance(raw, (property, types.FunctionType, functools.cached_property)):
                 core.wrap_method(c, name, post_shadow)
     for mod, names in ((O, ["crossratio", "harmonic_set", "angle", "angle_bisectors", "dist", "is_cocircular", "is_perpendicular", "is_coplanar"]),
                        (P, ["join", "meet"])):
